@@ -215,11 +215,19 @@ func VerifC07Send(which int) {
 		if m := verifSent6(f, s.NICInfo.HostLLA.Addr(), allRouters, true, "rs"); m != nil {
 			verifAssert(len(m) == 16 && m[0] == 133 && m[8] == 1 && m[9] == 1 && verifMACDiff(m[10:16], host) == 0, "rs:fields")
 		}
-	case 6: // router advertisement: one prefix, optional RDNSS with one server
+	case 6: // router advertisement: one or two prefixes (arbitrary, possibly equal), optional RDNSS with one server
 		pb := verifBytes(16)
 		plen := verifU8()
 		verifAssume(plen <= 128)
 		prefixes := []PrefixInformation{{PrefixLength: plen, Prefix: net.IP(pb)}}
+		pbs, plens := [][]byte{pb}, []uint8{plen}
+		if verifChoose(2) == 1 {
+			pb2 := verifBytes(16)
+			plen2 := verifU8()
+			verifAssume(plen2 <= 128)
+			prefixes = append(prefixes, PrefixInformation{PrefixLength: plen2, Prefix: net.IP(pb2)})
+			pbs, plens = append(pbs, pb2), append(plens, plen2)
+		}
 		var rd *RecursiveDNSServer
 		if verifChoose(2) == 1 {
 			rd = &RecursiveDNSServer{Lifetime: 30 * time.Minute, Servers: []net.IP{net.IP(verifBytes(16))}}
@@ -241,14 +249,17 @@ func VerifC07Send(which int) {
 		if m := verifSent6(f, s.NICInfo.HostLLA.Addr(), dst.IP, false, "ra"); m != nil {
 			verifAssert(len(m) >= 16 && m[0] == 134 && m[4] == 64 && verifBE16(m, 6) == 1800, "ra:header-fields")
 			// walk the options with an independent loop: all lengths non-zero and the walk ends exactly at the end
-			i, okWalk, sawPrefix, sawLLA := 16, true, false, false
+			i, okWalk, sawPrefix, sawLLA, np := 16, true, true, false, 0
 			for i < len(m) {
 				if i+2 > len(m) || m[i+1] == 0 || i+int(m[i+1])*8 > len(m) {
 					okWalk = false
 					break
 				}
-				if m[i] == 3 && m[i+1] == 4 {
-					sawPrefix = m[i+2] == plen && m[i+16] == pb[0] && m[i+31] == pb[15]
+				if m[i] == 3 && m[i+1] == 4 { // the k-th prefix information option carries the k-th requested prefix
+					if np < len(pbs) {
+						sawPrefix = sawPrefix && m[i+2] == plens[np] && m[i+16] == pbs[np][0] && m[i+31] == pbs[np][15]
+					}
+					np++
 				}
 				if m[i] == 1 && m[i+1] == 1 {
 					sawLLA = verifMACDiff(m[i+2:i+8], host) == 0
@@ -256,7 +267,7 @@ func VerifC07Send(which int) {
 				i += int(m[i+1]) * 8
 			}
 			verifAssert(okWalk, "ra:options-well-formed")
-			verifAssert(sawPrefix && sawLLA, "ra:prefix-and-source-lla-options-as-requested")
+			verifAssert(sawPrefix && np == len(pbs) && sawLLA, "ra:prefix-and-source-lla-options-as-requested")
 		}
 	}
 	verifReach("done")
